@@ -107,7 +107,7 @@ func RunStress(seed int64, idx int, hostile bool) *Result {
 		nd.Start()
 	}
 	for _, nd := range net.Nodes {
-		nd.ML.UpdateState(nd.ctx, nil, nil)
+		nd.Sync(nil, nil)
 	}
 	stop := make(chan struct{})
 	var wg sync.WaitGroup
@@ -195,7 +195,7 @@ func RunStress(seed int64, idx int, hostile bool) *Result {
 					target = 1 + uint64(r.Intn(int(mc)))
 				}
 				if c := net.Canon(target); c != nil {
-					nd.ML.UpdateState(nd.ctx, c.Block, c.Proof)
+					nd.Sync(c.Block, c.Proof)
 					net.count("UpdateState calls")
 				}
 			}
@@ -273,7 +273,7 @@ func RunStress(seed int64, idx int, hostile bool) *Result {
 		// API calls with the cancelled context return promptly
 		done := make(chan struct{})
 		go func() {
-			nd.ML.UpdateState(nd.ctx, nil, nil)
+			nd.Sync(nil, nil)
 			nd.ML.HandleConsensusMessage(nd.ctx, nd.ping.CreatePrepareMessage(0, 1, []byte("x")).ToConsensusRawMessage())
 			close(done)
 		}()
